@@ -6,23 +6,23 @@ import os
 VERIF = os.path.dirname(os.path.dirname(os.path.abspath(__file__)))
 props = [json.loads(l) for l in open(os.path.join(VERIF, "properties.jsonl"))]
 T = {
-"C01": ("Every received-set (all subsets with >= k of the k+r shards) of every configuration in [1..5]^2 (thorough [1..6]^2, chunk-edge configurations to n=17, one n=20) x {high,low,default,ReedSolomon*,one-shot} x all engines incl. emulated Neon is decoded on the real code from soiled working space and compared with the original data; a grid of mid-size configurations around every chunk-size boundary up to 4097 (8193) and large/envelope configurations (transform size classes up to the whole field) by complete pattern families, including hyperplane-shaped losses on whole-field configurations.",
+"C01": ("Every received-set (all subsets with >= k of the k+r shards) of every configuration in [1..5]^2 (thorough [1..6]^2, chunk-edge configurations to n=17, one n=20) x {high,low,default,ReedSolomon*,one-shot} x all engines incl. emulated Neon is decoded on the real code from soiled working space and compared with the original data (also with shards of 4162 to 16450 (65730) bytes); a grid of mid-size configurations around every chunk-size boundary up to 4097 (8193) and large/envelope configurations (transform size classes up to the whole field) by complete pattern families, including hyperplane-shaped losses on whole-field configurations.",
         "explicit-state enumeration of the received-set lattice on the real decoder"),
-"C02": ("The implementation's whole generator matrix is read back (basis-in-slots data for [1..64]^2 / [1..130]^2, unit vectors for a grid up to 4097 (8193) and for envelope configurations) and compared entry by entry with the closed form of the property computed by an independent field implementation; ancestor crate reed-solomon-16 as second oracle. Per configuration the comparison is total (the matrix is the function).",
+"C02": ("The implementation's whole generator matrix is read back (basis-in-slots data for [1..64]^2 / [1..130]^2, unit vectors for a grid up to 4097 (8193) and for envelope configurations) and compared entry by entry with the closed form of the property computed by an independent field implementation; ancestor crate reed-solomon-16 as second oracle; every recovery byte of dense shards with short final blocks and of long shards (to 16 KiB, thorough 64 KiB), two rounds per encoder, against G*data. Per configuration the comparison is total (the matrix is the function).",
         "small-scope exhaustive enumeration against a closed-form oracle"),
 "C03": ("Every engine against Naive: every truncated_size of every power-of-two size up to 2^10 (2^12), every size class up to 2^16 at 6 truncated sizes, 8 skew offsets, 2 positions, 1-3 and 65/130/257 blocks; every log_m for mul; indicator families for eval_poly; encode + every exactly-k received-set end to end; guard shards unchanged.",
         "small-scope exhaustive enumeration of primitive arguments, differential between engines"),
-"C04": ("Every even shard size 2..132 (thorough ..260) plus big sizes (1022..131138 bytes, values that do not fit 16 bits, block counts with remainders) and calls carrying several MiB: lengths, slots re-coded alone as 2-byte shards, G*data with the documented byte placement, decode patterns; soiled working space puts stale bytes into unused lanes.",
+"C04": ("Every even shard size 2..132 (thorough ..260) plus big sizes (1022..131138 bytes, values that do not fit 16 bits, block counts with remainders), configurations on the edge of the envelope with short final blocks, and calls carrying several MiB: lengths, slots re-coded alone as 2-byte shards, G*data with the documented byte placement, decode patterns; soiled working space puts stale bytes into unused lanes.",
         "small-scope exhaustive enumeration with self-differential and closed-form oracles"),
-"C05": ("Every sequence of d<=2 (thorough 3) rounds on one object over 11 colliding configurations x {reset, implicit reset, recycle into high/low/default} x {completed, abandoned} earlier rounds x {fresh, soiled} start, plus all d=3 sequences over a reduced 7-member alphabet in the quick tier; last round compared with a fresh object and with the reference.",
+"C05": ("Every sequence of d<=2 (thorough 3) rounds on one object over 11 colliding configurations x {reset, implicit reset, recycle into high/low/default} x {completed, abandoned} earlier rounds x {fresh, soiled} start, plus all d=3 sequences over a reduced 7-member alphabet in the quick tier, and every supported sequence of 2 (3) rounds over a second alphabet of mid-size and whole-field configurations; last round compared with a fresh object and with the reference.",
         "explicit-state enumeration of round histories on the real objects, differential against a fresh object"),
-"C06": ("Breadth-first search over call histories (depth 4, thorough 6; repeated without state merging to depth 3 / 4) on all 8 codec types from 4 start configurations (+ a start with more than 1 MiB of working space), argument alphabet with 0, off-by-one, usize::MAX and wrap-around indexes, wrong lengths, several violations at once; every observation must be in the reference model's set of truthful outcomes; checked build (overflow checks on).",
+"C06": ("Breadth-first search over call histories (depth 4, thorough 6; repeated without state merging to depth 3 / 4) on all 8 codec types from 4 start configurations (+ a start with more than 1 MiB of working space, + a configuration whose two rate layouts differ in size), argument alphabet incl. hand-over of the working space to every other codec kind, with 0, off-by-one, usize::MAX and wrap-around indexes, wrong lengths, several violations at once; every observation must be in the reference model's set of truthful outcomes; checked build (overflow checks on).",
         "explicit-state BFS of API histories against a reference model, exact state merging plus an unmerged pass"),
 "C07": ("Twin runs: for every merged history h (depth<=2, thorough 3), every failing call f enabled after h and every continuation c (depth<=1, thorough 2, completed to a full round) the observations after h++[f]++c equal those after h++c call for call.",
         "explicit-state enumeration of histories with differential twin runs"),
 "C08": ("All 65538^2 (k,r) pairs for each of the 8 supports() entry points against the README predicate (whole domain), extremes to usize::MAX, validate/new/reset agreement at every staircase corner and neighbour x 7 shard sizes x 4 codec kinds, real round trips at supported corners.",
         "whole-domain enumeration"),
-"C09": ("Default-rate encoder/decoder, ReedSolomonEncoder/Decoder and one-shot functions against the dedicated codec selected by the rule for every (k,r) in [1..40]^2 (thorough [1..130]^2 + power-of-two neighbours), a grid up to 4097 (8193), on generator-revealing data; every sequence of up to 3 resets over a 9-member alphabet straddling the rule, each also with rejected resets interleaved.",
+"C09": ("Default-rate encoder/decoder, ReedSolomonEncoder/Decoder and one-shot functions against the dedicated codec selected by the rule for every (k,r) in [1..40]^2 (thorough [1..130]^2 + power-of-two neighbours), a grid up to 4097 (8193), on generator-revealing data, also with short final blocks, long shards and 1-2 MiB shards through every layer; every sequence of up to 3 resets over a 9-member alphabet straddling the rule, each also with rejected resets interleaved.",
         "small-scope exhaustive enumeration + reset-history enumeration, differential between API layers"),
 "C10": ("Every argument tuple of encode()/decode() over 8 count pairs and all original/recovery lists up to the length bound over (index alphabet) x (5 shard classes), compared with the equivalent streaming sequence and with the set of truthful errors; every ordered pair of calls from a reduced alphabet on one fresh thread (the second call must behave like a first).",
         "small-scope exhaustive enumeration of argument tuples and call pairs, differential against the streaming API"),
@@ -34,9 +34,9 @@ T = {
         "small-scope exhaustive enumeration of linear relations (oracle-free)"),
 "C14": ("One fresh process per subset of {AVX2,SSSE3} and of {Neon} (ported AArch64 arm): after every operation of an alphabet covering everything built on DefaultEngine the ISA trace must show only the best reported ISA for every primitive, and no evaluation of the shared eval_poly block outside an ISA entry point; results identical under all subsets. The property's whole quantifier is enumerated.",
         "exhaustive enumeration of environment answers (feature masks) with an execution-trace monitor"),
-"C15": ("Every table entry (exp, log, skew, log-Walsh by definition, Mul16, Mul128); all 2^32 (symbol, log_m) pairs per engine; fft/ifft against evaluation in the LCH basis for n<=6 (thorough 10, plus 12 and 16) at every truncated_size; eval_poly against the sum-of-logs formula for unit vectors (all 65536 in thorough), pairs, prefixes, every decoder-built erasure vector, and ~400 (~2000) large structured vectors (hyperplane halves, residue classes, blocks, random densities, complements) against an exact XOR-convolution reference.",
+"C15": ("Every table entry (exp, log, skew, log-Walsh by definition, Mul16, Mul128); all 2^32 (symbol, log_m) pairs per engine; fft/ifft against evaluation in the LCH basis for n<=6 (thorough 10, and 11-12) at every truncated_size, every size class up to 2^16 and shards of 65-257 blocks on every engine; eval_poly against the sum-of-logs formula for unit vectors (all 65536 in thorough), pairs, prefixes, every decoder-built erasure vector, and ~400 (~2000) large structured vectors (hyperplane halves, residue classes, blocks, random densities, complements) against an exact XOR-convolution reference.",
         "whole-domain / small-scope exhaustive enumeration against definitions"),
-"C16": ("Repository source re-targeted onto shuttle; own iterative-context-bounding DFS scheduler: every schedule of the 2-thread scenarios and every schedule with <=2 (3) preemptions of the 3-thread and hand-over scenarios; each execution compared thread by thread (different data and erasure pattern per thread) with sequential use; deadlocks and panics reported; first use of every table family races in every execution.",
+"C16": ("Repository source re-targeted onto shuttle; own iterative-context-bounding DFS scheduler: every schedule of the 2-thread scenarios and every schedule with <=2 (3) preemptions of the 3-thread and hand-over scenarios; each execution compared thread by thread (different data and erasure pattern per thread) with sequential use; deadlocks and panics reported; first use of every table family races in every execution, also two threads on the same table; the port adds scheduling points at reference counting and after atomic writes; available_parallelism is answered by the harness (2).",
         "controlled-scheduler exploration of thread interleavings (bounded-preemption DFS, real code)"),
 "C17": ("Counting global allocator; every history of <=2 (3) steps over {round, abandoned round, reset, recycle into high/low/default} after the object holds the maximum, for three families (32 KiB shards, 512 KiB shards / multi-MiB working space, thousands of shards), executed at two scales (shard sizes doubled / counts doubled): bytes allocated in the measured region must not grow with scale; positive control in every run.",
         "explicit-state enumeration of histories with an allocation monitor, scale-differential"),
@@ -57,7 +57,7 @@ N = {
 "C13": "Additivity exhaustive per axis and up to weight 3 across axes; structural closure by C15 (kernels are XORs of table look-ups verified entry by entry).",
 "C14": "Mask can only hide features this CPU has; trace points sit in every existing target_feature entry point (a new untraced entry point would be invisible, reported as machinery error when nothing is traced).",
 "C15": "fft/ifft beyond n=10 only at decoder shapes and sampled output points; not all 2^65536 indicator vectors (structured families + linearity in the indicator).",
-"C16": "Scheduling points = shuttle sync/thread/lazy operations; sequentially consistent; unsynchronised accesses (static mut, UnsafeCell) have no scheduling point; std's LazyLock modelled by shuttle's blocking Once.",
+"C16": "Scheduling points = shuttle sync/thread/lazy operations; sequentially consistent; unsynchronised accesses (static mut, UnsafeCell) have no scheduling point of their own (the window after an atomic write has one); std's LazyLock modelled by shuttle's blocking Once.",
 "C17": "Allocation on the measuring thread only; criterion is growth with scale, so constant allocations are never reported.",
 }
 checks = []
